@@ -319,6 +319,18 @@ func monDelivery(v *runView) (out []finding) {
 			}
 		}
 	}
+	// nothing altered: what a call submits under its stream id is its own data (request and message tags name their rpc)
+	for _, f := range v.wire["cli"] {
+		if f.Kind != "Message" {
+			continue
+		}
+		var r int
+		if n, _ := fmt.Sscanf(f.Tag, "%d.", &r); n == 1 && r > 0 {
+			if owner, ok := v.sidRPC[f.Sid]; ok && owner != r {
+				out = append(out, finding{"C01", "a message went out with the payload of another call", f.Line, map[string]any{"frame": f, "payload_of_rpc": r, "stream_of_rpc": owner}})
+			}
+		}
+	}
 	// isolation (C02): whatever a call of RPC r receives was sent on r's stream
 	for _, x := range byC {
 		sid := v.rpcSid[x.R]
